@@ -36,8 +36,20 @@ def main(argv: list[str] | None = None) -> int:
         repo = Repo(args.repo)
         chk = Check(prop, args.tier, args.repo, seed)
         mod.run(repo, chk)
-        if args.tier == "thorough" and not args.no_selftest and hasattr(mod, "selftest"):
-            mod.selftest(repo, chk)
+        if args.tier == "thorough" and not args.no_selftest:
+            # self-validation of the rules on mutated scratch copies (informational, never the verdict)
+            from selftest import runner
+
+            try:
+                chk.selftest = runner.run(prop, args.repo)
+            except Exception as e:  # noqa: BLE001
+                chk.selftest = [{"name": "selftest-runner", "status": f"error: {type(e).__name__}: {e}"}]
+            n = len(chk.selftest)
+            good = sum(1 for r in chk.selftest if r.get("status") in ("caught", "silent"))
+            print(f"selftest: {good}/{n} mutant/twin cases behave as expected")
+            for r in chk.selftest:
+                if r.get("status") not in ("caught", "silent"):
+                    print(f"  selftest {r.get('kind')} {r.get('name')}: {r.get('status')}")
         if args.replay:
             want = json.load(open(args.replay))
             for i in chk.instances:
